@@ -779,3 +779,87 @@ func TestSweeps(t *testing.T) {
 		harness.Exhaustive("assembler-replies", "every quantity 0..65535 for fc1, fc3, fc15, fc16 requests", 4*65536)
 	}
 }
+
+// ---------------------------------------------------------------------------
+// bursts: a client writes Per pipelined requests at once (Per x 12 bytes: 24, 25 and 26 requests are 288, 300 and 312 bytes - the
+// server connection reads into a 300-byte array), collects the replies, waits for the line to go quiet and then sends single
+// requests. Every request gets exactly its own reply, once, in order - some of the requests are refused by the handler.
+
+type burstCase struct {
+	Per    int    `json:"per"`
+	Bursts int    `json:"bursts"`
+	Seed   uint64 `json:"seed"`
+	// IdleMs: silence between a burst and what follows (the server's read timeout is 20 ms)
+	IdleMs int `json:"idle_ms"`
+}
+
+func runBurst(c burstCase) harness.Result {
+	l := xport.NewPipeListener()
+	s := &server.Server{ReadTimeout: 20 * time.Millisecond, WriteTimeout: 2 * time.Second, OnErrorFunc: func(error) {}}
+	ctx, cancel := context.WithCancel(context.Background())
+	var wg sync.WaitGroup
+	wg.Add(1)
+	go func() {
+		defer wg.Done()
+		_ = s.Serve(ctx, l, &srv.Handler{Dev: device.New(c.Seed), ErrorFromUnit: 200})
+	}()
+	defer func() {
+		cancel()
+		_ = l.Close()
+		wg.Wait()
+	}()
+	conn, err := l.Dial()
+	if err != nil {
+		return harness.Fail("harness: %v", err)
+	}
+	defer conn.Close()
+	col := srv.Collect(conn)
+	ref := device.New(c.Seed)
+	sd := c.Seed
+	tx := uint16(0)
+	next := func() (frame, want []byte) {
+		v := harness.SplitMix64(&sd)
+		tx++
+		r := spec.Req{FC: 3 + uint8(v&1), Unit: uint8(1 + (v>>8)%9), Tx: tx, Addr: uint16(v>>16) & 0x3FFF, Qty: 1 + uint16(v>>40)%6}
+		if v%7 == 0 {
+			r.Unit = 200 + uint8(v>>8)%50
+		}
+		frame = spec.EncodeRequest(spec.TCP, r)
+		if r.Unit >= 200 {
+			return frame, exception(frame, srv.ErrorCodeFor(r.Unit))
+		}
+		return frame, ref.Answer(spec.TCP, frame)
+	}
+	got := 0
+	for b := 0; b < c.Bursts; b++ {
+		var burst, wants []byte
+		for i := 0; i < c.Per; i++ {
+			f, w := next()
+			burst, wants = append(burst, f...), append(wants, w...)
+		}
+		if err := exchange(conn, col, got, burst, wants); err != nil {
+			return harness.Fail("burst %d of %d requests (%d bytes) written at once: %v", b+1, c.Per, len(burst), err)
+		}
+		got += len(wants)
+		time.Sleep(time.Duration(c.IdleMs) * time.Millisecond)
+		for k := 0; k < 2; k++ {
+			f, w := next()
+			if err := exchange(conn, col, got, f, w); err != nil {
+				return harness.Fail("single request %d after burst %d (%d requests, %d bytes, written at once; then %d ms of silence): %v", k+1, b+1, c.Per, len(burst), c.IdleMs, err)
+			}
+			got += len(w)
+		}
+	}
+	if all := col.WaitQuiet(40*time.Millisecond, time.Second); len(all) != got {
+		return harness.Fail("after the last reply the server sent %d more bytes: %x", len(all)-got, all[got:])
+	}
+	return harness.Result{NonTrivial: true, Labels: []string{fmt.Sprintf("burst-bytes:%d", 12*c.Per)}, Weight: int64(c.Bursts * (c.Per + 2))}
+}
+
+var chkBurst = harness.Define("pipelined-bursts",
+	func(t *rapid.T) burstCase {
+		return burstCase{Per: rapid.SampledFrom([]int{1, 2, 12, 24, 25, 25, 25, 26, 50, 75}).Draw(t, "per"), Bursts: rapid.IntRange(1, 3).Draw(t, "bursts"),
+			Seed: rapid.Uint64().Draw(t, "seed"), IdleMs: rapid.SampledFrom([]int{0, 30, 60}).Draw(t, "idle_ms")}
+	}, runBurst)
+
+func TestBursts(t *testing.T) { chkBurst.Rapid(t, harness.Pick(20, 400)) }
